@@ -135,6 +135,22 @@ def arange(*a):
 
 
 def array(x, dtype=None):
+    from .core import SymList
+    if isinstance(x, SymList):
+        with SpecMode():
+            probe = x.item(SInt(z3.Int('probe')))
+        if isinstance(probe, SArr):
+            inner = probe.shape_e
+            k = probe.kind
+            def elem(j, *ix):
+                with SpecMode():
+                    return x.item(SInt(j)).elem(*ix)
+            return SArr((x.n,) + tuple(inner), elem, k)
+        def elem1(j):
+            with SpecMode():
+                return lift(x.item(SInt(j)))
+        pe = lift(probe)
+        return SArr((x.n,), elem1, kind_of_sort(pe.sort()))
     if isinstance(x, SArr):
         return x.copy() if dtype is None else x.astype(dtype)
     if isinstance(x, (list, tuple)):
@@ -754,6 +770,12 @@ def sum(a, axis=None):
     if axis is not None and axis < 0:
         axis += a.ndim
     if a.ndim == 1 and axis in (None, 0):
+        g = getattr(a, 'gather_of', None)
+        if g is not None and getattr(g[1], 'where_of', None) is not None and g[0].ndim == 1:
+            # ASSUMED identity: sum(x[mask]) = sum_t (x[t] if mask[t] else 0)
+            base, msk = g[0], g[1].where_of
+            z = ZERO[base.kind if base.kind != 'b' else 'i']
+            return wrap(_sum1(lambda t: z3.If(msk.elem(t), base.elem(t) if base.kind != 'b' else z3.If(base.elem(t), 1, 0), z), base.shape_e[0], 'f' if base.kind == 'f' else 'i'))
         return wrap(_sum1(a.elem, a.shape_e[0], a.kind))
     if a.ndim == 2 and axis == 1:
         return SArr((a.shape_e[0],), lambda i: _sum1(lambda j: a.elem(i, j), a.shape_e[1], a.kind), rk)
@@ -768,6 +790,10 @@ def nansum(a, axis=None):
     if isinstance(a, SArr) and a.nan is not None:
         z = ZERO[a.kind]
         b = SArr(a.shape_e, lambda *ix: z3.If(a.nan(*ix), z, a.elem(*ix)), a.kind)
+        g = getattr(a, 'gather_of', None)
+        if g is not None and g[0].nan is not None:
+            b0 = g[0]
+            b.gather_of = (SArr(b0.shape_e, lambda *ix: z3.If(b0.nan(*ix), z, b0.elem(*ix)), b0.kind), g[1])
         return sum(b, axis)
     return sum(a, axis)
 
@@ -892,7 +918,15 @@ def digitize(x, edges):
     xa = x if isinstance(x, SArr) else None
     if xa is None:
         raise Unsupported('digitize of scalar')
+    cix = [z3.Int('dig_canon%d' % d) for d in range(xa.ndim)]
+    key = (z3.simplify(xa.elem(*cix)).sexpr(), z3.simplify(e.elem(cix[0])).sexpr(), m.sexpr(), tuple(s_.sexpr() for s_ in xa.shape_e),
+           z3.simplify(xa.nan(*cix)).sexpr() if xa.nan is not None else None)
+    dcache = c.ghost.setdefault('digitize_cache', {})
+    if key in dcache:
+        D = dcache[key]
+        return SArr(xa.shape_e, lambda *jx: D(*jx), 'i')
     D = c.fresh_fun('dig', *([I] * xa.ndim + [I]))
+    dcache[key] = D
     ix = _qv(xa.ndim)
     rng = z3.And(*[z3.And(0 <= q, q < n) for q, n in zip(ix, xa.shape_e)])
     r = D(*ix)
